@@ -110,6 +110,24 @@ def run(chk):
                 if len(edges) != (N if branch == 'primary' else 2 * N) or not close(edges, [(k + 1) / N * M for k in range(R)], 1e-12):
                     chk.violation('class edges are not k * max_load / bins', case0, None, edges.tolist(), part='table')
                     continue
+                # off the lattice: loads one ulp, 1e-9 and 4e-6 (relative) beyond the last class edge raise in every call shape, and so does the mirrored load
+                top = float(edges[-1])
+                for above in (float(np.nextafter(top, np.inf)), top * (1 + 1e-9), top * (1 + 4e-6)):
+                    for sg in (1.0, -1.0):
+                        for shape in ('scalar', 'series1', 'series3'):
+                            nrun += 1
+                            chk.evals(1)
+                            arg = sg * above if shape == 'scalar' else pd.Series([sg * above]) if shape == 'series1' else pd.Series([0.5 * w, sg * above, -0.25 * w])
+                            try:
+                                with warnings.catch_warnings():
+                                    warnings.simplefilter('ignore')
+                                    s, e = lookup(b, branch, arg)
+                                chk.violation('load just above the initialised maximum returned a value instead of raising',
+                                              {**case0, 'load': sg * above, 'relative_excess': above / top - 1.0, 'shape': shape}, 'ValueError', np.asarray(s, dtype=np.float64).tolist(), part='lookup')
+                            except ValueError:
+                                chk.nontrivial((N, branch, 'above', above / top - 1.0, sg, shape, lname, M))
+                            except Exception as ex:
+                                chk.violation('look-up raised an unexpected %r' % ex, {**case0, 'load': sg * above, 'shape': shape}, 'ValueError', None, part='lookup')
                 for st in sts:
                     j = st['j']
                     k_on = abs(j) // Q if abs(j) % Q == 0 and 1 <= abs(j) // Q <= R else None
@@ -173,8 +191,17 @@ def run(chk):
                 except Exception as ex:
                     chk.violation('constructing per-point Binned raised %r' % ex, case0, part='multi')
                     continue
+                # a second per-point table with other class edges is alive and in use at the same time (two components assessed side by side)
+                with warnings.catch_warnings():
+                    warnings.simplefilter('ignore')
+                    decoy = Binned(lawset[lname](), pd.Series([0.37 * M0 * c for c in reversed(cs)], index=pd.Index(ids, name='node_id')), N + 3)
+                decoy_load = pd.Series([0.11 * M0 * c for c in reversed(cs)], index=pd.Index(ids, name='node_id'))
                 for branch, R in (('primary', N), ('secondary', 2 * N)):
                     for jj in range(-(R * Q + 2), R * Q + 3):
+                        if jj % 5 == 0:
+                            with warnings.catch_warnings():
+                                warnings.simplefilter('ignore')
+                                lookup(decoy, branch, decoy_load)
                         chk.evals(1)
                         loads = pd.Series([jj / Q * (c * M0 / N) for c in cs], index=pd.Index(ids, name='node_id'))
                         # mixed signs across nodes are legal inputs of a unit load case
@@ -217,7 +244,7 @@ def run(chk):
     chk.cov['rule'] = ('TLC enumerates (bins, branch, lattice load j) with loads on, between and beyond the class edges (Q=4 sub-steps per class, both signs, zero) and proves '
                        'coded class choice = definition; every state is looked up in real Binned objects wrapping 2 exact integer laws (exact equality) and ExtendedNeuber / SeegerBeste '
                        '(expected = wrapped law evaluated on the table edges; 1e-12) for 3 maxima, as scalar, 1-element Series and 3-element Series; per-point tables are compared '
-                       'with each point alone for 3 node-id layouts incl. mixed signs. Non-trivial = non-zero load; distinct by (bins, branch, j, law, max).')
+                       'with each point alone for 3 node-id layouts incl. mixed signs, while a second per-point table with other class edges is alive and looked up in between; loads one ulp / 1e-9 / 4e-6 beyond the last edge must raise in every call shape. Non-trivial = non-zero load; distinct by (bins, branch, j, law, max).')
     chk.cov['exhaustive'] = True
     chk.assumptions += ['on-edge loads are taken from the table\'s own load column (edges as doubles); the wrapped real laws are evaluated on the edges the way the table is built',
                         'per-point look-up assumes proportional loads (class from the first point), as documented by pyLife']
